@@ -1117,7 +1117,7 @@ Proof.
   rewrite <- app_assoc. simpl.
   assert (P : forall (p : list A) l1 l2, subseq l1 l2 -> subseq l1 (p ++ l2)).
   { induction p; simpl; intros; auto. constructor. auto. }
-  apply P. constructor. apply P. constructor. apply subseq_nil.
+  apply P. constructor. apply P. apply P. constructor. apply subseq_nil.
 Qed.
 
 (* if a receive of x1 has returned before receiver rc invoked the operation that received x2, and
